@@ -243,13 +243,20 @@ fn unpack_for(bytes: &[u8], did: &str) -> Result<IotaDocument, String> {
     .map_err(|e| e.to_string())
 }
 
+/// The metadata as the harness sees it, field by field (not through the library's serialiser, which is part of what
+/// is being checked): absent and present-but-false are different values. The ledger address fields are left out.
 fn expected_meta(doc: &IotaDocument) -> Value {
-  let mut m = serde_json::to_value(&doc.metadata).unwrap();
-  if let Some(o) = m.as_object_mut() {
-    o.remove("governorAddress");
-    o.remove("stateControllerAddress");
-  }
-  m
+  meta_fields(doc)
+}
+
+fn meta_fields(doc: &IotaDocument) -> Value {
+  let m = &doc.metadata;
+  let mut o = serde_json::Map::new();
+  o.insert("created".into(), m.created.map(|t| Value::from(t.to_rfc3339())).unwrap_or(Value::Null));
+  o.insert("updated".into(), m.updated.map(|t| Value::from(t.to_rfc3339())).unwrap_or(Value::Null));
+  o.insert("deactivated".into(), m.deactivated.map(Value::from).unwrap_or(Value::Null));
+  o.insert("properties".into(), Value::Object(m.properties().iter().map(|(k, v)| (k.clone(), v.clone())).collect()));
+  Value::Object(o)
 }
 
 fn check_unpacked(ctxt: &str, got: &Result<IotaDocument, String>, want_core: &Value, want_meta: &Value) {
@@ -270,7 +277,7 @@ fn check_unpacked(ctxt: &str, got: &Result<IotaDocument, String>, want_core: &Va
           format!("unpacked document {core} differs from expected {want_core}"),
         );
       }
-      let meta = serde_json::to_value(&doc.metadata).unwrap();
+      let meta = meta_fields(doc);
       if &meta != want_meta {
         ctx::violation(
           "C14",
